@@ -679,6 +679,10 @@ type e2eCase struct {
 	PortLess bool `json:"port_less"`
 	// OwnHTTP: the host has its own plaintext site on the HTTP port; no redirect expected.
 	OwnHTTP bool `json:"own_http"`
+	// BoundPublic: a publicly certifiable name bound to a loopback address
+	// (not qualifying): the real start must serve it in plaintext on {P1} and
+	// must not ask the CA for anything.
+	BoundPublic bool `json:"bound_public,omitempty"`
 }
 
 type e2eExchange struct {
@@ -701,6 +705,10 @@ type e2eObs struct {
 	StartErr  string
 	Listening []int
 	Ex        []e2eExchange
+	// CAConns: connections the configured CA endpoint (a listener of the child) received during the case
+	CAConns int
+	// Plain: plaintext probe of {P1} (BoundPublic cases)
+	Plain *e2eExchange `json:",omitempty"`
 }
 
 func e2eCases(c *lib.Ctx, fx *fixtures) []e2eCase {
@@ -738,6 +746,10 @@ func e2eCases(c *lib.Ctx, fx *fixtures) []e2eCase {
 	add("catch-all/explicit-port/cert+key", ":{P1}"+body(tlsCK, "S"), false, false, "any.example.net", "[fd00::9]")
 	add("catch-all/https-default-port/cert+key", "https://"+body(tlsCK, "S"), false, false, "any.example.net", "[fd00::9]")
 	add("ip-host/portless/cert+key", "{IP}"+body(tlsCK, "S"), true, false, "{IP}")
+	// the real start-up order: a public name whose listen host (bind) is loopback
+	for _, h := range []string{"bound.example.org", "www.bound.example.org"} {
+		out = append(out, e2eCase{Name: "public-name-bound-to-loopback/" + h, Text: h + ":{P1}" + body("", "B"), BoundPublic: true})
+	}
 	return out
 }
 
@@ -780,6 +792,17 @@ func runE2E(c *lib.Ctx, fx *fixtures) {
 		c.Count("e2e_started", 1)
 		c.Nontrivial("e2e:" + o.Text)
 		c.SampleTag("e2e", 2, o)
+		if k.BoundPublic {
+			c.Count("e2e_bound_public_sites", 1)
+			w := map[string]interface{}{"casketfile": o.Text, "listening_ports": o.Listening, "ca_connections": o.CAConns, "plaintext_probe": o.Plain}
+			switch {
+			case o.CAConns > 0:
+				c.Violation("C15/non-qualifying-site-managed/real-start", fmt.Sprintf("a site whose listen host is loopback (bind %s) does not qualify, yet the real start contacted the certificate authority %d time(s)", o.IP, o.CAConns), w)
+			case o.Plain == nil || o.Plain.Err != "" || o.Plain.Marker != "B":
+				c.Violation("C15/non-qualifying-site-managed/real-start", fmt.Sprintf("a site whose listen host is loopback (bind %s) does not qualify, yet after a real start it does not answer plain HTTP on its port", o.IP), w)
+			}
+			continue
+		}
 		seen := map[string]bool{}
 		for _, ex := range o.Ex {
 			c.Count("e2e_exchanges", 1)
